@@ -26,11 +26,50 @@ CATALOG = {
     'drop.IntrusiveArrayBuilder': lambda f, s, n: scenarios.guard_drop(f, s, n, which='IntrusiveArrayBuilder', name='drop.IntrusiveArrayBuilder'),
     'try_from_iter': lambda f, s, n: scenarios.op_try_from_iter(f, s, n, name='try_from_iter'),
 }
+for w in ('from_slice', 'try_from_slice', 'from_mut_slice', 'try_from_mut_slice', 'TryFrom', 'TryFromMut'):
+    for c in (False, True):
+        if c and w.startswith('TryFrom'):
+            continue
+        CATALOG['iff.%s%s' % (w, '.ctfe' if c else '')] = (lambda w, c: lambda f, s, n: scenarios.len_iff(f, s, n, which=('TryFrom_mut' if w == 'TryFromMut' else w), ctfe=c))(w, c)
+for w in ('as_slice', 'as_mut_slice', 'deref', 'deref_mut', 'as_ref', 'as_mut', 'borrow', 'borrow_mut', 'into_iter_ref', 'into_iter_mut'):
+    CATALOG['view.' + w] = (lambda w: lambda f, s, n: scenarios.views(f, s, n, which=w))(w)
+for w in ('as_slice', 'as_mut_slice'):
+    CATALOG['view.%s.ctfe' % w] = (lambda w: lambda f, s, n: scenarios.views(f, s, n, which=w, ctfe=True))(w)
+for w in ('chunks_from_slice', 'chunks_from_slice_mut'):
+    for c in (False, True):
+        CATALOG['chunks.%s%s' % (w, '.ctfe' if c else '')] = (lambda w, c: lambda f, s, n: scenarios.chunks(f, s, n, which=w, ctfe=c))(w, c)
+for w in ('slice_from_chunks', 'slice_from_chunks_mut'):
+    for c in (False, True):
+        CATALOG['unchunk.%s%s' % (w, '.ctfe' if c else '')] = (lambda w, c: lambda f, s, n: scenarios.unchunk(f, s, n, which=w, ctfe=c))(w, c)
+
+for w in ('eq', 'partial_cmp', 'cmp', 'hash', 'fmt'):
+    CATALOG['delegation.' + w] = (lambda w: lambda f, s, n: scenarios.delegation(f, s, n, which=w))(w)
+CATALOG['delegation.iter_fmt'] = lambda f, s, n: scenarios.iter_debug(f, s, n)
+
+for w in ('remove', 'swap_remove'):
+    CATALOG[w + '.oob'] = (lambda w: lambda f, s, n: scenarios.remove_oob(f, s, n, which=w))(w)
+
+CATALOG['ref.map'] = lambda f, s, n: scenarios.ref_map(f, s, n, which='map')
+CATALOG['clone'] = lambda f, s, n: scenarios.ref_map(f, s, n, which='clone', name='clone')
+
+for nm, lo, hi in (('hex.small', 0, 15), ('hex.medium', 16, 1024), ('hex.large', 1025, 4200)):
+    CATALOG[nm] = (lambda nm, lo, hi: lambda f, s, n: scenarios.hex_arith(f, s, n, lo=lo, hi=hi, name=nm))(nm, lo, hi)
 
 if __name__ == '__main__':
     fns = mirsym.parse_mir(open(sys.argv[1]).read())
     src, nmax = sys.argv[2], int(sys.argv[3])
     for sc in sys.argv[4:]:
-        r = CATALOG[sc](fns, src, nmax)
+        # multiply/divide kernels: mathematical integers with explicit wrap conditions (see mirsym.MODE); everything else 64-bit bit-vectors
+        mode = 'int' if sc.startswith(('chunks.', 'unchunk.')) else 'bv'
+        if sc.endswith('@int'):
+            mode, sc_run = 'int', sc[:-4]
+        elif sc.endswith('@bv'):
+            mode, sc_run = 'bv', sc[:-3]
+        else:
+            sc_run = sc
+        mirsym.set_mode(mode)
+        del mirsym.RANGE[:]
+        r = CATALOG[sc_run](fns, src, nmax)
+        r.bounds += ' [numeric back-end: %s]' % ('mathematical integers in [0, 2^64) with explicit wrap conditions' if mode == 'int' else '64-bit bit-vectors')
         r.name = sc
         print(json.dumps(r.to_dict()), flush=True)
